@@ -145,6 +145,7 @@ type c15Case struct {
 	Top     string        `json:"top"`
 	Nodes   []c15NodeSpec `json:"nodes"`
 	Mirrors []c15Mirror   `json:"mirrors"`
+	MoveTop string        `json:"moveTop,omitempty"` // the top node is moved there after the build: its first, older edge is then a deleted one
 	Exps    []c15ExpSpec  `json:"exps"`
 	Risky   string        `json:"risky,omitempty"` // hex of the YAML-significant scalar placed in this tree ("" when none)
 	RiskyF  string        `json:"riskyF,omitempty"`
@@ -540,6 +541,19 @@ func c15Build(a, b *c15Inst, c *c15Case) error {
 	for _, m := range c.Mirrors {
 		if err := client.MirrorNode(a.nc, m.ID, m.Parent, ""); err != nil {
 			return fmt.Errorf("mirroring %v: %w", m.ID, err)
+		}
+	}
+	if c.MoveTop != "" {
+		for _, n := range c.Nodes {
+			if n.ID == c.Top {
+				if err := client.MirrorNode(a.nc, c.Top, c.MoveTop, ""); err != nil {
+					return fmt.Errorf("moving %v: %w", c.Top, err)
+				}
+				if err := client.DeleteNode(a.nc, c.Top, n.Parent, ""); err != nil {
+					return fmt.Errorf("moving %v: %w", c.Top, err)
+				}
+				break
+			}
 		}
 	}
 	for _, n := range c.Nodes {
@@ -1253,6 +1267,8 @@ func c15GenCase(r *rand.Rand, id int, kind string, risky *string, riskF *float64
 		}
 		if r.Intn(8) == 0 && home != "gA2" {
 			c.Mirrors = append(c.Mirrors, c15Mirror{ID: c.Top, Parent: "gA2"})
+		} else if r.Intn(6) == 0 && home != "gA2" {
+			c.MoveTop = "gA2" // a node that was moved: the export starts from its live edge, not from the older deleted one
 		}
 	}
 	// experiments
@@ -1278,11 +1294,17 @@ func c15GenCase(r *rand.Rand, id int, kind string, risky *string, riskF *float64
 		}
 		add(false, "A", live[r.Intn(len(live))]) // a copy inside the exported subtree itself
 	}
+	// where the top node lives now; importing with the same ids under a parent that still holds an older, deleted
+	// edge of the node would merge with that edge's own points, which is not what the property is about
+	place := home
+	if c.MoveTop != "" {
+		place = c.MoveTop
+	}
 	switch r.Intn(3) {
 	case 0:
-		add(true, "A", home) // onto itself
+		add(true, "A", place) // onto itself
 	case 1:
-		if home != "gA2" {
+		if place != "gA2" {
 			add(true, "A", "gA2") // same ids under another parent: a mirror
 		}
 	}
@@ -1419,6 +1441,9 @@ func c15Run(cfg *config) error {
 			}
 		}
 		cs.count(fmt.Sprintf("mirrors:%d", len(c.Mirrors)))
+		if c.MoveTop != "" {
+			cs.count("top-moved")
+		}
 		cs.count(fmt.Sprintf("tree-size(nodes+points):%d", (nodes/10)*10))
 		if len(c.Obs) > 0 && c.Obs[0].Src != nil && len(c.Obs[0].Src.Kids) > 0 {
 			cs.markNontrivial(c.digest())
